@@ -17,8 +17,9 @@ Pipeline (DESIGN.md 7/C18):
      abstract flip.
   4. RpcConv decision table (MC_RpcConv) -> real TryFrom<rpc::*> under catch_unwind: never a panic;
      a converted value survives to_rpc/try_from_rpc unchanged; outcome differing from the table = DRIFT.
-  5. seeded tamper sequences (segments up to 7 entries, up to 4 tampers, concrete bit positions) and
-     seeded RPC messages recorded from the real code -> Trace_SignedSegment / Trace_RpcConv (TLC
+  5. seeded tamper sequences (segments up to 7 entries, up to 4 tampers, concrete bit positions),
+     seeded RPC messages and byte-level damaged encodings (bit flips, truncation, splices of valid
+     PathSegment / SegmentsResponse / daemon Path encodings that prost still decodes) recorded from the real code -> Trace_SignedSegment / Trace_RpcConv (TLC
      evaluates the P-invariants on the recorded verdicts).
 
 Readings adopted (the ones demanding less of the code):
@@ -174,11 +175,11 @@ def trace_step(c, binp):
     elif r.postcondition_failed or not r.ok:
         c.drift("RPC trace not accepted by Trace_RpcConv (see %s)" % r.out_path)
     else:
-        traces += rec["rpc_msgs"]
+        traces += rec["rpc_msgs"] + rec.get("bytes_decoded", 0)
     c.cov["traces_validated_against_impl"] = traces
-    c.cov["evaluations"] += 3 * rec["validations"] + rec["rpc_msgs"]
+    c.cov["evaluations"] += 3 * rec["validations"] + rec["rpc_msgs"] + rec.get("bytes_decoded", 0)
     c.cov["distinct_nontrivial"] += rec["nontrivial_runs"]
-    c.cov["trace_stats"] = {k: rec[k] for k in ("runs", "events", "validations", "nontrivial_runs", "ops", "rpc_msgs", "rpc_ok")}
+    c.cov["trace_stats"] = {k: rec.get(k) for k in ("runs", "events", "validations", "nontrivial_runs", "ops", "rpc_msgs", "rpc_ok", "bytes_msgs", "bytes_decoded")}
     c.sample({"trace_event": "reset/tamper/validate per run, see spec/SignedSegment/Trace_SignedSegment.tla; one line per RPC conversion, see Trace_RpcConv.tla"})
 
 
